@@ -650,8 +650,9 @@ class Scalar(Qube):
         obj = Scalar(log_values, mask=no_negs._mask_)
 
         if recursive and no_negs._derivs_:
+            no_negs_wod = no_negs.wod
             for (key, deriv) in self._derivs_.items():
-                obj.insert_deriv(key, deriv / no_negs)
+                obj.insert_deriv(key, deriv / no_negs_wod)
 
         return obj
 
